@@ -237,4 +237,52 @@ def Result.bonded (S : Sys) (R : Result) (u v : Nat) : Bool :=
 /-- does the edge carry a `distance` attribute -/
 def Result.hasDistance (R : Result) (u v : Nat) : Bool := has R.nameE u v || has R.distE u v
 
+/-! ### the input: molecules that may have been through `make_bonds` before
+
+`make_bonds` starts with `nx.set_node_attributes(molecule, mol_idx, 'mol_idx')` for every
+input molecule (position in `system.molecules`) and `nx.disjoint_union_all`.  Nodes of an
+input molecule may still carry the private attributes `mol_idx` and `_res_serial` of an
+earlier run (the returned molecules keep them); both are overwritten before they are read. -/
+
+structure InAtom where
+  staleMol : Option Nat        -- 'mol_idx' left by an earlier run
+  staleSerial : Option Nat     -- '_res_serial' left by an earlier run
+  chain : Option String
+  resid : Option Int
+  resname : Option String
+  icode : Option String
+  name : Option String
+  element : Option String
+  x : Int
+  y : Int
+  z : Int
+  deriving Repr, DecidableEq, Inhabited
+
+structure InMol where
+  atoms : List InAtom
+  edges : List Edge            -- on positions in `atoms`
+  deriving Repr, DecidableEq, Inhabited
+
+/-- `set_node_attributes(molecule, mol_idx, 'mol_idx')`: the index of the input molecule
+replaces whatever was there; `_res_serial` is assigned afresh by the loop over residues. -/
+def InAtom.label (i : Nat) (a : InAtom) : Atom :=
+  { mol := i, chain := a.chain, resid := a.resid, resname := a.resname, icode := a.icode,
+    name := a.name, element := a.element, x := a.x, y := a.y, z := a.z }
+
+/-- `disjoint_union_all`: molecule number `i`, first new node key `off` -/
+def unionFrom : Nat → Nat → List InMol → List Atom × List Edge
+  | _, _, [] => ([], [])
+  | i, off, m :: ms =>
+    let r := unionFrom (i + 1) (off + m.atoms.length) ms
+    (m.atoms.map (InAtom.label i) ++ r.1, m.edges.map (fun e => (e.1 + off, e.2 + off)) ++ r.2)
+
+def sysOf (ms : List InMol) (ff : FF) (radii : List (String × Nat)) (allowName allowDist : Bool)
+    (p q : Nat) : Sys :=
+  { atoms := (unionFrom 0 0 ms).1, pre := (unionFrom 0 0 ms).2, ff := ff, radii := radii,
+    allowName := allowName, allowDist := allowDist, p := p, q := q }
+
+/-- forget what earlier runs left on the nodes -/
+def InAtom.erase (a : InAtom) : InAtom := { a with staleMol := none, staleSerial := none }
+def InMol.erase (m : InMol) : InMol := { m with atoms := m.atoms.map InAtom.erase }
+
 end C10
